@@ -23,7 +23,7 @@ func init() {
 			"(J5) shapes: Tags marshal a map[string]string, WayNodes a []int64 filled from the way nodes' ID, Relation.Members is never omitted and an empty Members marshals as the literal `[]`, a zero Date as the literal null, the osmjson keys of tables/osmjson.json are carried by the documented fields; each codec helper performs exactly one operation with its parameters, through encoding/json when no codec is installed and through the installed codec otherwise; every (un)marshal operation reached from a MarshalJSON/UnmarshalJSON method uses the installed codec whenever one is installed (a direct encoding/json call is accepted only on operands whose JSON form involves no Go-level convention, or on paths taken only when no codec is installed) and never touches the codec variable while it is nil; " +
 			"(J6) with an interface-typed document field (version: number or string) non-nil and of unknown dynamic type, a value computed from it reaches the receiver on every path that returns without error. " +
 			"NOT decided: equality of round-tripped values, tag order, and whether a user-installed codec implements JSON and Go's struct-tag conventions the way encoding/json does (a run-time configuration).",
-		Assumptions: []string{"go/types (x/tools v0.29.0)", "documented naming rules of encoding/json (struct tags, omitempty, Marshaler/Unmarshaler in the method set)", "the path-enumerating abstract interpreter of rules/c03_eval.go (one iteration per loop, lists built on the path unrolled, calls outside the repository and the codec helpers opaque and assumed to succeed, function literals / defer / goroutines make the exploration undecided)", "tables/osmjson.json transcribes the osmjson documentation correctly"},
+		Assumptions: []string{"go/types (x/tools v0.29.0)", "documented naming rules of encoding/json (struct tags, omitempty, Marshaler/Unmarshaler in the method set)", "the path-enumerating abstract interpreter of rules/c03_eval.go (one iteration per loop, lists built on the path unrolled, calls outside the repository and the codec helpers opaque and assumed to succeed, function literals, method values, deferred calls, pointers to fields and never-reassigned unexported package-level tables are followed; goroutines, goto, generic functions and calls whose target is not known on the path make the exploration undecided)", "tables/osmjson.json transcribes the osmjson documentation correctly"},
 		LevelText:   "Structural necessary conditions of the osmjson shape and of the JSON round trip: the writer's flattening and the reader's dispatch agree type by type on one literal per type, which equals the XML name and the Type constant; an absent optional key is never formatted or dereferenced; a value of any dynamic type reaches the receiver; container shapes and key names match osmjson; the installed codec is used whenever one is installed. Value equality and third-party codec behaviour are not decided.",
 		LevelNote:   "Trusts the type checker, the documented naming rules of encoding/json and the abstract interpreter's modelling of the Go statements the codec uses (anything it does not model is reported as undecided); covers package osm's hand-written MarshalJSON/UnmarshalJSON methods and the functions they call.",
 		Technique:   "abstract interpretation of the JSON codec methods over a finite set of scenarios (value of the `type` key, absent / dynamically typed document fields, codec installed or not, empty receiver), observing the (un)marshal operations with symbolic operands and the final receiver state; struct-tag model of encoding/json; writer/reader agreement on the observations",
@@ -37,7 +37,7 @@ func init() {
 			{ID: "J6", Floor: 1, Doc: "interface-typed document fields (version: number or string) reach the receiver whatever their dynamic type", Run: c05J6},
 			{ID: "J7", Floor: 6, Doc: "every JSON marshaler (MarshalJSON / MarshalText) of the package has a value receiver, so that it is in the method set of T and *T and a value that is not addressable is still written as osmjson (11 today)", Run: c05J7},
 		},
-		Mutants: []core.Mutant{
+		Mutants: append([]core.Mutant{
 			{Name: "j7-osm-marshaljson-pointer-receiver", File: "osm.go", Find: "func (o OSM) MarshalJSON(", Replace: "func (o *OSM) MarshalJSON(", ExpectRule: "J7", ExpectConstruct: "receiver@OSM.MarshalJSON"},
 			{Name: "j6-version-type-switch-no-default", File: "osm.go", Find: "\tif s.Version != nil {\n\t\to.Version = fmt.Sprintf(\"%v\", s.Version)\n\t}", Replace: "\tswitch v := s.Version.(type) {\n\tcase string:\n\t\to.Version = v\n\tcase float64:\n\t\to.Version = fmt.Sprint(v)\n\t}", ExpectRule: "J6", ExpectConstruct: "Version"},
 			{Name: "way-type-key-renamed", File: "way.go", Find: "xmlNameJSONTypeWay `xml:\"way\" json:\"type\"`", Replace: "xmlNameJSONTypeWay `xml:\"way\" json:\"kind\"`", ExpectRule: "J1", ExpectConstruct: "type@Way"},
@@ -67,7 +67,7 @@ func init() {
 			{Name: "tags-std-marshal-direct", File: "tag.go", Find: "return marshalJSON(ts.Map())", Replace: "return json.Marshal(struct{ Tags map[string]string }{ts.Map()})", ExpectRule: "J5", ExpectConstruct: "codec@Tags.MarshalJSON"},
 			{Name: "members-custom-codec-direct", File: "relation.go", Find: "return marshalJSON([]Member(ms))", Replace: "return CustomJSONMarshaler.Marshal([]Member(ms))", ExpectRule: "J5", ExpectConstruct: "codec@Members.MarshalJSON"},
 			{Name: "helper-branches-swapped", File: "json.go", Find: "if CustomJSONUnmarshaler == nil {", Replace: "if CustomJSONUnmarshaler != nil {", ExpectRule: "J5", ExpectConstruct: "helper@unmarshalJSON"},
-		},
-		Benign: c05Benign,
+		}, c05Mutants2...),
+		Benign: append(append([]core.Mutant{}, c05Benign...), c05Benign2...),
 	})
 }
